@@ -128,7 +128,16 @@ pub const V14_BUGGIFY: u32 = 8;
 pub fn gen_c14(rng: &mut Rng, thorough: bool) -> History {
     let surf = if thorough && rng.chance(1, 12) { gen_surface_big(rng, false) } else { gen_surface(rng, if thorough { 64 } else { 33 }, false, false) };
     let (w, h) = (surf.w, surf.h);
-    let mut em = Emit::new(vec![surf]);
+    // a third of the histories also move pixels in from a second surface between the eligible
+    // calls: the block transfers write the buffer without going through the drawing pipeline
+    // (whatever an optimised route remembers about the buffer has to survive that too)
+    let second = if rng.chance(1, 3) { Some(gen_surface(rng, 16, false, true)) } else { None };
+    let sdims = second.as_ref().map(|s| (s.w, s.h));
+    let mut em = Emit::new(match second {
+        Some(s) => vec![surf, s],
+        None => vec![surf],
+    });
+    let mut last_clear: Option<[u8; 4]> = None;
     let variant = match rng.below(6) {
         0 => V14_RECT_AS_PATH,
         1 => V14_COVERING_CLIP,
@@ -191,9 +200,28 @@ pub fn gen_c14(rng: &mut Rng, thorough: bool) -> History {
             em.push(0, Op::SetTransform(gen_transform(rng, w, h, true)));
             continue;
         }
+        if let Some((sw, sh)) = sdims {
+            if rng.chance(1, 6) {
+                if rng.chance(1, 3) {
+                    // clear, transfer, clear to the same colour again
+                    let c = last_clear.unwrap_or_else(|| {
+                        let p = valid_pixel(rng);
+                        [(p >> 24) as u8, (p >> 16) as u8, (p >> 8) as u8, p as u8]
+                    });
+                    em.push(0, Op::Clear { argb: c });
+                    em.push(0, crate::misc::gen_transfer(rng, 1, sw, sh, w, h, false));
+                    em.push(0, Op::Clear { argb: c });
+                    last_clear = Some(c);
+                } else {
+                    em.push(0, crate::misc::gen_transfer(rng, 1, sw, sh, w, h, false));
+                }
+                continue;
+            }
+        }
         if rng.chance(1, 10) {
             let p = valid_pixel(rng);
             let (a, r, g, b) = ((p >> 24) as u8, (p >> 16) as u8, (p >> 8) as u8, p as u8);
+            last_clear = Some([a, r, g, b]);
             em.push(0, Op::Clear { argb: [a, r, g, b] });
             em.push(0, Op::FillRect { rect: gen_int_rect_f(rng, w, h), src: SrcSpec::solid(a, r, g, b), opts: Opts { blend: BLEND_SRC_OVER, alpha: F(1.), aa: !rng.chance(1, 5) } });
             continue;
@@ -216,8 +244,17 @@ pub fn gen_c14(rng: &mut Rng, thorough: bool) -> History {
                 }
             }
             5 => {
-                let p = valid_pixel(rng);
-                Op::Clear { argb: [(p >> 24) as u8, (p >> 16) as u8, (p >> 8) as u8, p as u8] }
+                // now and then the colour of the previous clear (a clear that changes nothing
+                // unless something else wrote the buffer in between)
+                let c = match last_clear {
+                    Some(c) if rng.chance(1, 3) => c,
+                    _ => {
+                        let p = valid_pixel(rng);
+                        [(p >> 24) as u8, (p >> 16) as u8, (p >> 8) as u8, p as u8]
+                    }
+                };
+                last_clear = Some(c);
+                Op::Clear { argb: c }
             }
             6 | 7 => Op::DrawImageAt {
                 x: F(rng.range(-5, w + 2) as f32),
